@@ -7,6 +7,8 @@ axis for a dimension is the very same object as the dataset's axis (C13), the po
 ones the variable's own label indexing would compute: the two routes coincide.
 -/
 import DimModel.Lib.GetSet
+import DimModel.Lib.DatasetOps
+import DimModel.Proofs.C14
 namespace DimModel
 open Lib
 
@@ -51,5 +53,343 @@ theorem dsTake_perdim_commutes (L : List Label) (kind : Kind) (ix : Ix) (tol : O
 /-- a full slice is passed through unchanged in both modes -/
 theorem fullslice_both_modes : ixToRaw fullIx = .ok (.slice none none none) := by
   simp [fullIx, ixToRaw, pure, Except.pure, bind, Except.bind]
+
+
+/-! ### Dataset operations by value (round 2): the Dataset code paths of dataset.py (`reduce_axis` on raw values,
+one label resolution on the Dataset's axes, per-variable patching in `reindex_axis`) against the DimArray
+operation on every variable -/
+
+namespace DSV
+
+/-- same data: dimension names, labels of every axis, shape, every cell of the shape, metadata (the kind and the
+metadata of the *axes* are not compared: `Dataset.take_axis` rebuilds the operated axis as a bare `Axis`) -/
+def SameData {α} (r r' : DimArray α) : Prop :=
+  r.dims = r'.dims ∧ r.axes.map (·.labels) = r'.axes.map (·.labels) ∧ r.vals.shape = r'.vals.shape ∧
+  (∀ j, InRange r.vals.shape j → r.vals.get j = r'.vals.get j) ∧ r.attrs = r'.attrs
+
+/-- the datasets the statements speak about: shared axes (C13) - by value this is `SharedAxes` (names and labels)
+together with `OwnAxes`: every axis of a variable IS the Dataset's axis of that name (in dimarray they are the same
+object, and `setItem` / `__setitem__` stores exactly that) -, distinct keys, every variable well-formed (distinct
+dimension names, values of the shape its axes announce, plain axes).
+
+CHANGE with respect to the first draft: the conjunct `OwnAxes ds` was added.  With `SharedAxes` alone (equal names
+and labels only) the statements below are false: `setItem` re-links every stored variable to the Dataset's axes
+found by name, so a variable that does not have the operated dimension comes back with the Dataset's axis objects -
+counterexample: `ds.axes = [x(kind i), y]`, variables `a` over `[x(kind i), y]`, `b` over `[y]`, `c` over
+`[x(kind f, attrs [("u",1)])]` with the same labels for `x`: `takeAxisPosDs ds "y" [1]` returns `c` over `x(kind i)`
+without the attribute, i.e. not `c` "as it is"; and `takeDs` resolves the index with the *Dataset's* axis kind and
+size, which `SharedAxes` does not relate to the variable's. -/
+def GoodDs {α} (ds : Ds α) : Prop :=
+  SharedAxes ds ∧ OwnAxes ds ∧ ds.keys.Nodup ∧
+  ∀ kv ∈ ds.vars, kv.2.dims.Nodup ∧ kv.2.vals.shape = kv.2.axes.map (·.size) ∧ ∀ ax ∈ kv.2.axes, ax.members = []
+
+/-! machine-checked counterexample to the first draft (`GoodDs` without `OwnAxes`): the Dataset `cexDs` satisfies
+the first-draft hypotheses, but `take_axis` along `y` does not return the variable `c` (which has no `y`) as it is:
+its axis `x` (kind f, one attribute) is replaced by the Dataset's axis `x` (kind i, no attribute) -/
+
+def cexX : Axis := { name := "x", labels := [.num 10, .num 30], kind := .i }
+def cexXf : Axis := { name := "x", labels := [.num 10, .num 30], kind := .f, attrs := [("u", 1)] }
+def cexY : Axis := { name := "y", labels := [.num 1, .num 2], kind := .i }
+def cexC : DimArray Nat := { axes := [cexXf], vals := NDArr.const [2] 0 }
+def cexB : DimArray Nat := { axes := [cexY], vals := NDArr.const [2] 0 }
+def cexDs : Ds Nat := { axes := [cexX, cexY], vars := [("c", cexC), ("b", cexB)] }
+
+def varAxes (r : Except Err (Ds Nat)) : Option (List (String × List Axis)) :=
+  match r with
+  | .ok o => some (o.vars.map fun kv => (kv.1, kv.2.axes))
+  | .error _ => none
+
+theorem firstDraft_counterexample :
+    (SharedAxes cexDs ∧ cexDs.keys.Nodup ∧
+      ∀ kv ∈ cexDs.vars, kv.2.dims.Nodup ∧ kv.2.vals.shape = kv.2.axes.map (·.size) ∧ ∀ ax ∈ kv.2.axes, ax.members = []) ∧
+    ¬ ∀ out, takeAxisPosDs cexDs "y" [1] = .ok out →
+        ∀ k v, (k, v) ∈ cexDs.vars → ∃ r, (k, r) ∈ out.vars ∧ ("y" ∉ v.dims → r = v) := by
+  refine ⟨⟨⟨?_, ?_, ?_⟩, ?_, ?_⟩, ?_⟩
+  · intro kv hkv ax hax
+    simp only [cexDs, List.mem_cons, List.not_mem_nil, or_false] at hkv
+    rcases hkv with rfl | rfl
+    · simp only [cexC, List.mem_cons, List.not_mem_nil, or_false] at hax
+      subst hax
+      exact ⟨cexX, by simp [cexDs], rfl, rfl⟩
+    · simp only [cexB, List.mem_cons, List.not_mem_nil, or_false] at hax
+      subst hax
+      exact ⟨cexY, by simp [cexDs], rfl, rfl⟩
+  · intro e he
+    simp only [cexDs, List.mem_cons, List.not_mem_nil, or_false] at he
+    rcases he with rfl | rfl
+    · exact ⟨("c", cexC), by simp [cexDs], by simp [cexC, DimArray.dims, cexX, cexXf]⟩
+    · exact ⟨("b", cexB), by simp [cexDs], by simp [cexB, DimArray.dims]⟩
+  · simp [cexDs, Ds.dims, cexX, cexY]
+  · simp [cexDs, Ds.keys]
+  · intro kv hkv
+    simp only [cexDs, List.mem_cons, List.not_mem_nil, or_false] at hkv
+    rcases hkv with rfl | rfl
+    · simp [cexC, DimArray.dims, cexXf, NDArr.const, Axis.size]
+    · simp [cexB, DimArray.dims, cexY, NDArr.const, Axis.size]
+  · intro H
+    have hax : varAxes (takeAxisPosDs cexDs "y" [1]) =
+        some [("c", [cexX]), ("b", [{ name := "y", labels := [.num 2], kind := .i }])] := by decide
+    cases hto : takeAxisPosDs cexDs "y" [1] with
+    | error e => rw [hto] at hax; cases hax
+    | ok out =>
+      rw [hto] at hax
+      obtain ⟨r, hr, hnot⟩ := H out hto "c" cexC (by simp [cexDs])
+      rw [hnot (by simp [cexC, DimArray.dims, cexXf])] at hr
+      have hmem := List.mem_map_of_mem (f := fun kv : String × DimArray Nat => (kv.1, kv.2.axes)) hr
+      simp only [varAxes, Option.some.injEq] at hax
+      rw [hax] at hmem
+      revert hmem
+      decide
+
+/-- the Dataset's axis of a name is the axis of that name of every variable -/
+theorem GoodDs.axis_eq {α} {ds : Ds α} (hg : GoodDs ds) {name : String} {ax : Axis}
+    (hfind : ds.axes.find? (fun a => a.name == name) = some ax) {k : String} {v : DimArray α}
+    (hv : (k, v) ∈ ds.vars) : ∀ a ∈ v.axes, a.name = name → a = ax := by
+  intro a ha hn
+  have hmem := find?_name_some hfind
+  exact mem_name_inj hg.1.2.2 (hg.2.1 (k, v) hv a ha) hmem.1 (hn.trans hmem.2.symm)
+
+/-- TAKE_AXIS (positions): every variable that has the dimension comes back as `take_axis` of that variable,
+the others as they are; keys and dataset metadata kept; the result is again a Dataset with shared axes.
+
+CHANGE: the hypothesis `hin` (positions in range) of the first draft is not needed and was dropped (the statement
+relates two models that treat out-of-range positions in the same way); `OwnAxes out` was added to the conclusion. -/
+theorem takeAxisPosDs_spec {α : Type} (ds out : Ds α) (name : String) (ps : List Nat) (hg : GoodDs ds)
+    (h : takeAxisPosDs ds name ps = .ok out) :
+    out.keys = ds.keys ∧ out.attrs = ds.attrs ∧ SharedAxes out ∧ OwnAxes out ∧
+    ∀ k v, (k, v) ∈ ds.vars → ∃ r, (k, r) ∈ out.vars ∧
+      (name ∈ v.dims → SameData r (takeAxisPos v (v.dims.idxOf name) ps)) ∧ (name ∉ v.dims → r = v) := by
+  obtain ⟨ax, hfind, hout⟩ := takeAxisPosDs_closed ds out name ps hg.2.1 hg.1.2.2 hg.2.2.1 h
+  have hsh := reduce_shared ds name (takeNewAxis name ax ps) (takeVals ps) rfl hg.1 hg.2.1 out hout
+  refine ⟨?_, ?_, hsh.1, hsh.2, ?_⟩
+  · subst hout
+    simp only [Ds.keys, List.map_map]
+    rfl
+  · subst hout; rfl
+  · intro k v hkv
+    refine ⟨reduceVar name (takeNewAxis name ax ps) (takeVals ps) v, ?_, ?_, ?_⟩
+    · subst hout
+      exact List.mem_map_of_mem (f := fun kv => (kv.1, reduceVar name (takeNewAxis name ax ps) (takeVals ps) kv.2)) hkv
+    · intro hmem
+      have hax : ∀ a ∈ v.axes, a.name = name → a.labels = ax.labels := by
+        intro a ha hn
+        rw [hg.axis_eq hfind hkv a ha hn]
+      obtain ⟨h1, h2, h3, h4, _⟩ := reduceVar_take v name ax ps (hg.2.2.2 (k, v) hkv).1 hmem hax
+      exact ⟨h1, h2, by rw [h3], fun j _ => by rw [h3], h4⟩
+    · intro hmem
+      exact reduceVar_of_not_mem name _ _ v hmem
+
+/-- SORT_AXIS: the Dataset sorts by the argsort of ITS labels; every variable that has the dimension comes back
+as `sort_axis` of that variable (`OwnAxes out` added to the conclusion) -/
+theorem sortAxisDs_spec {α : Type} (ds out : Ds α) (name : String) (hg : GoodDs ds)
+    (h : sortAxisDs ds name = .ok out) :
+    out.keys = ds.keys ∧ out.attrs = ds.attrs ∧ SharedAxes out ∧ OwnAxes out ∧
+    ∀ k v, (k, v) ∈ ds.vars → ∃ r, (k, r) ∈ out.vars ∧
+      (name ∈ v.dims → ∃ r', sortAxis v (.name name) = .ok r' ∧ SameData r r') ∧ (name ∉ v.dims → r = v) := by
+  unfold sortAxisDs at h
+  split at h
+  · cases h
+  · rename_i ax hfind
+    obtain ⟨h1, h2, h3, h4, h5⟩ := takeAxisPosDs_spec ds out name _ hg h
+    refine ⟨h1, h2, h3, h4, ?_⟩
+    intro k v hkv
+    obtain ⟨r, hr, hin, hnot⟩ := h5 k v hkv
+    refine ⟨r, hr, ?_, hnot⟩
+    intro hmem
+    refine ⟨_, sortAxis_name_eq v name hmem, ?_⟩
+    have hax := axes_getD_idxOf v name hmem
+    rw [hg.axis_eq hfind hkv _ hax.1 hax.2]
+    exact hin hmem
+
+/-- REINDEX_AXIS (method=None, raise_error=False): every variable that has the dimension comes back as
+`reindex_axis` of that variable with the same fill; variables without the dimension are left alone
+(`SharedAxes out ∧ OwnAxes out` added to the conclusion of the first draft) -/
+theorem reindexAxisDs_spec {α : Type} (ds out : Ds α) (name : String) (newL : List Label) (newKind fillKind : Kind)
+    (fill : α) (hg : GoodDs ds) (h : reindexAxisDs ds name newL newKind fill fillKind = .ok out) :
+    out.keys = ds.keys ∧ out.attrs = ds.attrs ∧ SharedAxes out ∧ OwnAxes out ∧
+    ∀ k v, (k, v) ∈ ds.vars → ∃ r, (k, r) ∈ out.vars ∧
+      (name ∈ v.dims → ∃ r', reindexAxis v (.name name) newL newKind fill fillKind false none = .ok r' ∧ SameData r r') ∧
+      (name ∉ v.dims → r = v) := by
+  obtain ⟨ax, taken, hfind, hne, htk, hout⟩ := reindexAxisDs_closed ds out name newL newKind fillKind fill h
+  obtain ⟨t1, t2, t3, t4, t5⟩ := takeAxisPosDs_spec ds taken name _ hg htk
+  have haxn : ax.name = name := (find?_name_some hfind).2
+  have hgetD : ∀ k v, (k, v) ∈ ds.vars → name ∈ v.dims → v.axes.getD (v.dims.idxOf name) default = ax := by
+    intro k v hkv hmem
+    have hax := axes_getD_idxOf v name hmem
+    exact hg.axis_eq hfind hkv _ hax.1 hax.2
+  by_cases hany : (mismatchMask ax.labels (locateMany ax.labels newL .left) newL).any id = true
+  · -- some requested label is absent: the patched variables
+    rw [if_pos hany] at hout
+    obtain ⟨ax', hfind', htaken⟩ := takeAxisPosDs_closed ds taken name _ hg.2.1 hg.1.2.2 hg.2.2.1 htk
+    rw [hfind] at hfind'
+    cases hfind'
+    have hsh := rx_shared taken name ax newL newKind fill fillKind t3 t4
+    refine ⟨?_, ?_, by rw [hout]; exact hsh.1, by rw [hout]; exact hsh.2, ?_⟩
+    · rw [← t1, hout]
+      simp only [Ds.keys, List.map_map]
+      apply List.map_congr_left
+      intro kv _
+      exact rxPatch_fst name ax newL newKind fill fillKind kv
+    · rw [← t2, hout]
+    · intro k v hkv
+      have hmemt : (k, reduceVar name (takeNewAxis name ax (locateMany ax.labels newL .left))
+          (takeVals (locateMany ax.labels newL .left)) v) ∈ taken.vars := by
+        rw [htaken]
+        exact List.mem_map_of_mem (f := fun kv => (kv.1, reduceVar name (takeNewAxis name ax
+          (locateMany ax.labels newL .left)) (takeVals (locateMany ax.labels newL .left)) kv.2)) hkv
+      have hmemo := List.mem_map_of_mem (f := rxPatch name ax newL newKind fill fillKind) hmemt
+      by_cases hmem : name ∈ v.dims
+      · obtain ⟨r, hr, hax, hvals, hattrs, _⟩ := rxPatch_reduceVar v k name ax hmem newL newKind fill fillKind _ rfl hany
+        rw [hr] at hmemo
+        refine ⟨r, by rw [hout]; exact hmemo, ?_, fun hn => absurd hmem hn⟩
+        intro _
+        refine ⟨_, reindexAxis_name_ok v name hmem ax (hgetD k v hkv hmem) newL newKind fill fillKind hne, ?_⟩
+        have hax' := rxResult_axes v name ax newL newKind fill fillKind (hg.2.2.2 (k, v) hkv).1 hany
+        refine ⟨?_, ?_, by rw [hvals], fun j _ => by rw [hvals], hattrs⟩
+        · show r.axes.map (·.name) = (rxResult v name ax newL newKind fill fillKind).axes.map (·.name)
+          rw [hax, hax', List.map_map, List.map_map]
+          apply List.map_congr_left
+          intro a _
+          simp only [Function.comp]
+          split
+          · exact haxn.symm
+          · rfl
+        · rw [hax, hax', List.map_map, List.map_map]
+          apply List.map_congr_left
+          intro a _
+          simp only [Function.comp]
+          split <;> rfl
+      · rw [reduceVar_of_not_mem name _ _ v hmem, rxPatch_of_not_mem name ax newL newKind fill fillKind (k, v) hmem] at hmemo
+        exact ⟨v, by rw [hout]; exact hmemo, fun hm => absurd hm hmem, fun _ => rfl⟩
+  · -- every requested label is present: the clipped take is the result
+    rw [if_neg hany] at hout
+    subst hout
+    refine ⟨t1, t2, t3, t4, ?_⟩
+    intro k v hkv
+    obtain ⟨r, hr, hin, hnot⟩ := t5 k v hkv
+    refine ⟨r, hr, ?_, hnot⟩
+    intro hmem
+    refine ⟨_, reindexAxis_name_ok v name hmem ax (hgetD k v hkv hmem) newL newKind fill fillKind hne, ?_⟩
+    unfold rxResult
+    rw [if_neg hany]
+    exact hin hmem
+
+theorem sameData_refl {α} (r : DimArray α) : SameData r r := ⟨rfl, rfl, rfl, fun _ _ => rfl, rfl⟩
+
+/-- TAKE ({dim: index}): the index is resolved once on the Dataset's axis; every variable that has the dimension
+comes back as the variable's own `take` of the same index along that dimension - in full generality (any index,
+label or position mode, tolerance, keepdims).
+
+CHANGE: the first draft asked for `∃ r', take v ... = .ok r' ∧ SameData r r'`; under `GoodDs` (with `OwnAxes`) the
+stored variable IS the result of the variable's own `take` (axes with kind and metadata, value kind included), so
+the conclusion is stated as the equation `take v ... = .ok r` (the `SameData` form follows with `sameData_refl`, see
+`takeDs_sameData`).  `SharedAxes out ∧ OwnAxes out` was added to the conclusion. -/
+theorem takeDs_spec {α : Type} (ds out : Ds α) (name : String) (ix : Ix) (cfg : IndexCfg) (hg : GoodDs ds)
+    (h : takeDs ds name ix cfg = .ok out) :
+    out.keys = ds.keys ∧ out.attrs = ds.attrs ∧ SharedAxes out ∧ OwnAxes out ∧
+    ∀ k v, (k, v) ∈ ds.vars → ∃ r, (k, r) ∈ out.vars ∧
+      (name ∈ v.dims → take v (.dict [(.name name, ix)]) cfg = .ok r) ∧
+      (name ∉ v.dims → r = v) := by
+  obtain ⟨ax, raw, p, hfind, hraw, hp, hout⟩ := takeDs_closed ds out name ix cfg hg.2.1 hg.1.2.2 hg.2.2.1
+    (fun kv hkv => (hg.2.2.2 kv hkv).1) h
+  have hsh := take_shared ds name p hg.1 hg.2.1 out hout
+  refine ⟨?_, ?_, hsh.1, hsh.2, ?_⟩
+  · subst hout
+    simp only [Ds.keys, List.map_map]
+    rfl
+  · subst hout; rfl
+  · intro k v hkv
+    refine ⟨takeVar name p v, ?_, ?_, ?_⟩
+    · subst hout
+      exact List.mem_map_of_mem (f := fun kv => (kv.1, takeVar name p kv.2)) hkv
+    · intro hmem
+      exact take_dict_ok v name ix cfg hmem ax (hg.axis_eq hfind hkv) (hg.2.2.2 (k, v) hkv).2.2 raw p hraw hp
+    · intro hmem
+      exact takeVar_of_not_mem name p v hmem
+
+/-- the first-draft form of `takeDs_spec` -/
+theorem takeDs_sameData {α : Type} (ds out : Ds α) (name : String) (ix : Ix) (cfg : IndexCfg) (hg : GoodDs ds)
+    (h : takeDs ds name ix cfg = .ok out) :
+    out.keys = ds.keys ∧ out.attrs = ds.attrs ∧
+    ∀ k v, (k, v) ∈ ds.vars → ∃ r, (k, r) ∈ out.vars ∧
+      (name ∈ v.dims → ∃ r', take v (.dict [(.name name, ix)]) cfg = .ok r' ∧ SameData r r') ∧
+      (name ∉ v.dims → r = v) := by
+  obtain ⟨h1, h2, _, _, h5⟩ := takeDs_spec ds out name ix cfg hg h
+  refine ⟨h1, h2, fun k v hkv => ?_⟩
+  obtain ⟨r, hr, hin, hnot⟩ := h5 k v hkv
+  exact ⟨r, hr, fun hmem => ⟨r, hin hmem, sameData_refl r⟩, hnot⟩
+
+/-- `__setitem__` keeps the shared-axes rule (names and labels; the statement is about an accepted value - a
+rejected one returns `.error` and there is no new state) -/
+theorem setItem_shared {α : Type} (ds out : Ds α) (k : String) (v : DimArray α)
+    (hs : ∀ kv ∈ ds.vars, ∀ ax ∈ kv.2.axes, ∃ e ∈ ds.axes, e.name = ax.name ∧ e.labels = ax.labels)
+    (hd : ds.dims.Nodup) (hv : v.dims.Nodup) (h : setItem ds k v = .ok out) :
+    (∀ kv ∈ out.vars, ∀ ax ∈ kv.2.axes, ∃ e ∈ out.axes, e.name = ax.name ∧ e.labels = ax.labels) ∧
+    out.dims.Nodup ∧ (∃ r, (k, r) ∈ out.vars ∧ r.dims = v.dims ∧ r.vals = v.vals ∧
+      r.axes.map (·.labels) = v.axes.map (·.labels)) :=
+  setItem_shared_aux ds out k v hs hd hv h
+
+/-- the hypothesis `takeAxisPosDs ds name ps = .ok out` of `takeAxisPosDs_spec` is satisfiable for every good
+Dataset: `take_axis` on an existing dimension only fails on the NumPy error "take from an empty axis" -/
+theorem takeAxisPosDs_ok {α : Type} (ds : Ds α) (name : String) (ps : List Nat) (hg : GoodDs ds) (ax : Axis)
+    (hfind : ds.axes.find? (fun a => a.name == name) = some ax) (hsz : ¬ (ax.size == 0 && !ps.isEmpty) = true) :
+    ∃ out, takeAxisPosDs ds name ps = .ok out := by
+  have hmem := find?_name_some hfind
+  have hin : name ∈ ds.dims := hmem.2 ▸ List.mem_map_of_mem hmem.1
+  unfold takeAxisPosDs
+  rw [hfind]
+  simp only []
+  rw [if_neg hsz]
+  exact ⟨_, reduceAxisKeep_closed ds name _ (takeVals ps) rfl hin hg.2.1 hg.1.2.2 hg.2.2.1⟩
+
+/-! ### non-vacuity: a concrete Dataset with two variables over integer-labelled dimensions, one of them lacking
+the operated dimension -/
+
+def exX : Axis := { name := "x", labels := [.num 10, .num 30, .num 20], kind := .i }
+def exY : Axis := { name := "y", labels := [.num 1, .num 2], kind := .i }
+def exA : DimArray Int := { axes := [exX, exY], vals := NDArr.ofFlat [3, 2] [1, 2, 3, 4, 5, 6], vkind := .i }
+def exB : DimArray Int := { axes := [exY], vals := NDArr.ofFlat [2] [7, 8], vkind := .i, attrs := [("units", 1)] }
+def exDs : Ds Int := { axes := [exX, exY], vars := [("a", exA), ("b", exB)], attrs := [("title", 2)] }
+
+theorem exDs_good : GoodDs exDs := by
+  refine ⟨⟨?_, ?_, ?_⟩, ?_, ?_, ?_⟩
+  · intro kv hkv ax hax
+    exact ⟨ax, by
+      simp only [exDs, List.mem_cons, List.not_mem_nil, or_false] at hkv
+      rcases hkv with rfl | rfl <;> simp [exA, exB, exDs] at hax ⊢ <;> simp [hax], rfl, rfl⟩
+  · intro e he
+    simp only [exDs, List.mem_cons, List.not_mem_nil, or_false] at he
+    rcases he with rfl | rfl
+    · exact ⟨("a", exA), by simp [exDs], by simp [exA, DimArray.dims]⟩
+    · exact ⟨("b", exB), by simp [exDs], by simp [exB, DimArray.dims]⟩
+  · simp [exDs, Ds.dims, exX, exY]
+  · intro kv hkv ax hax
+    simp only [exDs, List.mem_cons, List.not_mem_nil, or_false] at hkv
+    rcases hkv with rfl | rfl <;> simp [exA, exB, exDs] at hax ⊢ <;> simp [hax]
+  · simp [exDs, Ds.keys]
+  · intro kv hkv
+    simp only [exDs, List.mem_cons, List.not_mem_nil, or_false] at hkv
+    rcases hkv with rfl | rfl
+    · simp [exA, DimArray.dims, exX, exY, NDArr.ofFlat, Axis.size]
+    · simp [exB, DimArray.dims, exY, NDArr.ofFlat, Axis.size]
+
+/-- `takeAxisPosDs_spec` applied to the concrete Dataset: `take_axis([2, 0], axis="x")` succeeds, keeps the keys,
+returns `b` (which has no dimension `x`) as it is and `a` as `a.take_axis([2, 0], axis=0)` -/
+example : ∃ out, takeAxisPosDs exDs "x" [2, 0] = .ok out ∧ out.keys = ["a", "b"] ∧ SharedAxes out ∧
+    ("b", exB) ∈ out.vars ∧ ∃ r, ("a", r) ∈ out.vars ∧ SameData r (takeAxisPos exA 0 [2, 0]) := by
+  have hfind : exDs.axes.find? (fun a => a.name == "x") = some exX := by simp [exDs, exX]
+  obtain ⟨out, hout⟩ := takeAxisPosDs_ok exDs "x" [2, 0] exDs_good exX hfind (by simp [exX, Axis.size])
+  obtain ⟨h1, _, h3, _, h5⟩ := takeAxisPosDs_spec exDs out "x" [2, 0] exDs_good hout
+  refine ⟨out, hout, h1, h3, ?_, ?_⟩
+  · obtain ⟨r, hr, _, hnot⟩ := h5 "b" exB (by simp [exDs])
+    rw [hnot (by simp [exB, DimArray.dims, exY])] at hr
+    exact hr
+  · obtain ⟨r, hr, hin, _⟩ := h5 "a" exA (by simp [exDs])
+    have hpos : exA.dims.idxOf "x" = 0 := by simp [exA, DimArray.dims, exX]
+    have := hin (by simp [exA, DimArray.dims, exX])
+    rw [hpos] at this
+    exact ⟨r, hr, this⟩
+
+end DSV
 
 end DimModel
